@@ -11,7 +11,6 @@ package main
 
 import (
 	"fmt"
-	"strings"
 	"sync"
 	"testing"
 	"testing/synctest"
@@ -36,7 +35,7 @@ type op struct {
 	From      int          `json:"from,omitempty"`
 	Cmd       *scx.CmdSpec `json:"cmd,omitempty"`
 	AdvanceMs int64        `json:"advance_ms,omitempty"`
-	Junk      int          `json:"junk,omitempty"`     // number of forged commands with fresh ids
+	Junk      int          `json:"junk,omitempty"`       // number of forged commands with fresh ids
 	UntilGone *scx.Key     `json:"until_gone,omitempty"` // junk rounds are repeated (max 40) until this key has left the cache
 }
 
@@ -378,9 +377,5 @@ func TestVerif(t *testing.T) {
 		}
 	}
 
-	var sb strings.Builder
-	sb.WriteString("From Coq Require Import List NArith ZArith.\nFrom MM Require Import Model.SleepCmd Model.SleepCmdFlood.\nImport ListNotations.\n")
-	sb.WriteString("Definition cases : list fcase := \n" + vh.CoqList(coq) + ".\n")
-	sb.WriteString("Definition M := Eval vm_compute in fmismatches cases.\nPrint M.\n")
-	c.WriteCasesV("cases.v", sb.String())
+	c.WriteCasesV("cases.v", scx.CasesV("From Coq Require Import List NArith ZArith.\nFrom MM Require Import Model.SleepCmd Model.SleepCmdFlood.\nImport ListNotations.\n", "fcase", "fmismatches_from", coq, 1500))
 }
